@@ -542,6 +542,15 @@ class Cells(Interface, Mapping, Callable, ItemFactory):
     def _is_defined(self):
         return not self._impl.is_derived()
 
+    @Interface.allow_none.setter
+    def allow_none(self, value):
+        value = value if value is None else bool(value)
+        if isinstance(self._impl, UserCellsImpl):
+            # Derived and dynamic cells take allow_none from their bases
+            self._impl.spmgr.set_cells_allow_none(self._impl, value)
+        else:
+            self._impl.allow_none = value
+
     @Interface.doc.setter
     def doc(self, doc):
         self._impl.set_doc(doc, insert_indents=False)
